@@ -49,9 +49,12 @@ Judge(b) ==
     \* -ECANCELED (the kernel did not execute the operation) is admissible only behind a linked predecessor
     \* that failed, transferred short or was cancelled itself; whether a failure severs the chain is the
     \* kernel's per-opcode policy (e.g. a failing unlinkat does not), so both continuations are admitted
+    \* A predecessor linked with IOSQE_IO_HARDLINK (subs[k-1].hard) does not sever the chain by failing: behind it only
+    \* a cancellation that started further up is passed on.
     ELSE IF \E k \in 1..n : Res(b, b.subs[k].u) = ECANCELED
                 /\ ~(k > 1 /\ b.subs[k-1].link
-                     /\ (Res(b, b.subs[k-1].u) = ECANCELED \/ Breaks(b.subs[k-1], Res(b, b.subs[k-1].u))))
+                     /\ (Res(b, b.subs[k-1].u) = ECANCELED
+                         \/ (~b.subs[k-1].hard /\ Breaks(b.subs[k-1], Res(b, b.subs[k-1].u)))))
          THEN "cancelled_without_failed_predecessor"
     \* the twin executes exactly the operations the kernel executed
     ELSE IF \E k \in 1..n : b.direct[k].ran # (Res(b, b.subs[k].u) # ECANCELED) THEN "harness_direct_protocol"
@@ -90,6 +93,9 @@ JudgeLap(l) ==
     ELSE IF l.completed # l.n THEN "missing_completion"
     ELSE IF l.bad_res > 0 THEN "result_differs_from_direct_call"
     ELSE ""
+
+\* a flag / opcode constant the library defines against the value in the kernel's uapi header (uapi = -1: not in the header)
+JudgeConstant(c) == IF c.uapi >= 0 /\ c.lib # c.uapi THEN "constant_differs_from_kernel_uapi" ELSE ""
 
 JudgeClauses == {"wrapper_panicked", "slot_refused_on_drained_ring", "enter_failed",
                  "completion_with_unknown_user_data", "duplicate_completion", "missing_completion",
@@ -158,7 +164,7 @@ ResOf(o) == IF o = "ok" THEN 0 ELSE IF o \in {"fail", "failsoft"} THEN -2 ELSE E
 DirectRan(k) == out[k] # "cancel"   \* the twin executes what the kernel executed
 Record ==
     [panic |-> FALSE, enter |-> N, side_same |-> TRUE,
-     subs |-> [k \in Ops |-> [u |-> 100 + k, op |-> "statx", link |-> link[k], req |-> 0, got_slot |-> TRUE]],
+     subs |-> [k \in Ops |-> [u |-> 100 + k, op |-> "statx", link |-> link[k], hard |-> FALSE, req |-> 0, got_slot |-> TRUE]],
      cqes |-> [i \in 1..Len(reaped) |-> [u |-> 100 + reaped[i], res |-> ResOf(out[reaped[i]])]],
      direct |-> [k \in Ops |-> [u |-> 100 + k, ran |-> DirectRan(k), count_reached |-> FALSE,
                                 res |-> IF DirectRan(k) THEN ResOf(out[k]) ELSE ECANCELED]],
